@@ -235,6 +235,7 @@ func run(c *fw.Ctx) {
 			c.Sample(map[string]interface{}{"state": strings.Split(s.Key, "\n"), "history": fsx.HistString(s.Hists[0]), "ops_checked_from_here": len(alphabet)})
 		}
 	}
+	runEscapeAll(c)
 	runLiveAll(c)
 	c.R.Traces = c.R.Transitions
 	c.R.Distinct = c.R.Transitions
@@ -253,6 +254,16 @@ func modelAfter(hist []treefs.Op) *treefs.Node {
 
 func replay(w json.RawMessage) (*fw.Violation, error) {
 	fsx.CheckSizes = true
+	var ew struct {
+		Init []treefs.Op `json:"escape_consistency_init"`
+		Op   *treefs.Op  `json:"op"`
+	}
+	if err := json.Unmarshal(w, &ew); err == nil && ew.Op != nil && strings.Contains(string(w), "escape_consistency_init") {
+		if bad := runEscape(escWit{ew.Init, *ew.Op}); bad != "" {
+			return &fw.Violation{Property: "C01", Clause: "queries agree with the tree", Signature: "C01/escaping-spelling-inconsistent/" + ew.Op.Kind + "/replay", Detail: bad}, nil
+		}
+		return nil, nil
+	}
 	var lw struct {
 		Live *liveWit `json:"live"`
 	}
@@ -285,7 +296,7 @@ func replay(w json.RawMessage) (*fw.Violation, error) {
 
 func init() {
 	fw.Register(&fw.Check{ID: "C01", Level: "model_checking",
-		Rule: "states = every tree of depth<=2 over names {a,b} and the content pool, reached on a fresh real memfs by replaying a shortest history (thorough: up to 3 histories ending in different op kinds); from every state every op of the alphabet (16 Filespace methods x path spellings x contents/chunkings/buffer sizes x root/child/grandchild views, incl. escaping paths) is executed and compared with the tree model (result class, returned data, full tree walk, structural sanity); plus retained-result probes (read, then every mutator, then re-inspect); plus every history of 4 (quick) / 5 (thorough) operations from a 24-entry alphabet issued through a root filespace, a child view and a view of that view that are obtained ONCE and stay alive (the view's base being removed, re-created or replaced by a file through another handle), judged step by step against the model. distinct = (state, op) transitions",
+		Rule: "states = every tree of depth<=2 over names {a,b} and the content pool, reached on a fresh real memfs by replaying a shortest history (thorough: up to 3 histories ending in different op kinds); from every state every op of the alphabet (16 Filespace methods x path spellings x contents/chunkings/buffer sizes x root/child/grandchild views, incl. escaping paths) is executed and compared with the tree model (result class, returned data, full tree walk, structural sanity); plus retained-result probes (read, then every mutator, then re-inspect); plus escaping spellings on the root filespace (7 spellings x 7 mutations x 2 initial trees): refused or clamped is left open, but a mutation that reports success must be visible to the queries under the same spelling; plus every history of 4 (quick) / 5 (thorough) operations from a 24-entry alphabet issued through a root filespace, a child view and a view of that view that are obtained ONCE and stay alive (the view's base being removed, re-created or replaced by a file through another handle), judged step by step against the model. distinct = (state, op) transitions",
 		Run: run, Replay: replay,
 		Assumptions: []string{"names {a,b}, depth<=2 states (ops may reach depth 3, those successors are checked but not expanded)", "listing order, sizes and times are not part of the model", "lexical path normalisation is the intended meaning of '..'"}})
 }
